@@ -47,10 +47,29 @@ def analyse(src: str, via_annotate_code: bool):
         return annotate_code(src), None
     tree = ast.parse(src)
     mod = make_module(src)
-    kwargs = NameCheckVisitor.prepare_constructor_kwargs({})
+    from pyanalyze.name_check_visitor import VisitorState
+
+    class RecordingVisitor(NameCheckVisitor):
+        """Same analysis; additionally keeps *every* value a node gets in the checking phase (a node
+        can be visited several times there: comprehension over a known iterable, finally bodies);
+        node.inferred_value only keeps the last one."""
+
+        def visit(self, node):
+            ret = super().visit(node)
+            if self.state is VisitorState.check_names:
+                node.__dict__.setdefault("c01_values", []).append(ret)
+            return ret
+
+        def composite_from_node(self, node):
+            c = super().composite_from_node(node)
+            if self.state is VisitorState.check_names:
+                node.__dict__.setdefault("c01_values", []).append(c.value)
+            return c
+
+    kwargs = RecordingVisitor.prepare_constructor_kwargs({})
     options = kwargs["checker"].options
     with ClassAttributeChecker(enabled=True, options=options) as attribute_checker:
-        visitor = NameCheckVisitor("", src, tree, module=mod, attribute_checker=attribute_checker, annotate=True, **kwargs)
+        visitor = RecordingVisitor("", src, tree, module=mod, attribute_checker=attribute_checker, annotate=True, **kwargs)
         import contextlib
         import io
 
@@ -72,7 +91,9 @@ def function_ranges(tree):
 
 
 def short(v, n=300):
-    s = str(v)
+    import re
+
+    s = re.sub(r"ctx=<[^>]*>|0x[0-9a-f]+|<test input [0-9a-f]+>", "@", str(v))
     return s if len(s) <= n else s[: n - 3] + "..."
 
 
@@ -86,10 +107,19 @@ def run_module(m, budget, oracle):
         return res
     inferred = {}
     kinds = {}
+    node_of = {}
     for n in ast.walk(tree):
         if isinstance(n, O.PROPERTY_NODES + O.EXTRA_NODES) and hasattr(n, "inferred_value") and hasattr(n, "lineno"):
-            inferred[O.node_key(n)] = n.inferred_value
+            vals = [n.inferred_value]
+            for v in getattr(n, "c01_values", []):
+                if not any(v is w or v == w for w in vals):
+                    vals.append(v)
+            inferred[O.node_key(n)] = vals
             kinds[O.node_key(n)] = type(n).__name__
+            node_of[O.node_key(n)] = n
+    import c01_classify
+
+    classifier = c01_classify.Classifier(tree, lambda n: getattr(n, "inferred_value", None))
     franges = function_ranges(tree)
     res["diag"] = diags or []
     diagnosed = {}
@@ -103,10 +133,10 @@ def run_module(m, budget, oracle):
     if m.get("want_values"):
         import c01_canon
 
-        res["values"] = {k: c01_canon.canon(v) for k, v in inferred.items()}
-        res["values_str"] = {k: short(v, 120) for k, v in inferred.items()}
+        res["values"] = {k: c01_canon.canon(v[0]) for k, v in inferred.items()}
+        res["values_str"] = {k: short(v[0], 120) for k, v in inferred.items()}
     if m.get("values_str_only"):
-        res["values_str"] = {k: short(v, 200) for k, v in inferred.items()}
+        res["values_str"] = {k: short(v[0], 200) for k, v in inferred.items()}
     calls = m.get("calls") or {}
     if not calls:
         return res
@@ -117,8 +147,8 @@ def run_module(m, budget, oracle):
     except Exception:
         res["crash"] = "instrument: " + traceback.format_exc()[-1500:]
         return res
-    state = {"ticks": 0, "fn": None, "args": None}
-    counts = {"checked": 0, "ok": 0, "fail": 0, "unknown": 0, "no_inferred": 0, "never_reached": 0}
+    state = {"ticks": 0, "fn": None, "args": None, "failed": False}
+    counts = {"checked": 0, "ok": 0, "fail": 0, "unknown": 0, "no_inferred": 0, "consequent": 0, "first_fails": 0}
     per_kind = {}
     fails = res["fails"]
     seen_fail = set()
@@ -130,19 +160,20 @@ def run_module(m, budget, oracle):
             raise _Budget()
         if state["fn"] is None:
             return val
-        iv = inferred.get(key)
-        if iv is None:
+        ivs = inferred.get(key)
+        if ivs is None:
             counts["no_inferred"] += 1
             return val
         counts["checked"] += 1
         evaluated_nodes.add(key)
         try:
-            r = oracle.member(val, iv)
+            r = O._or3(oracle.member(val, iv) for iv in ivs)
         except _Budget:
             raise
         except Exception:
             r = None
             oracle.unknown("oracle-exception")
+        iv = ivs[0] if len(ivs) == 1 else " || ".join(str(x) for x in ivs)
         k = kinds[key]
         pk = per_kind.setdefault(k, [0, 0, 0])
         if r is True:
@@ -154,6 +185,11 @@ def run_module(m, budget, oracle):
         else:
             counts["fail"] += 1
             pk[1] += 1
+            if state["failed"]:
+                counts["consequent"] += 1
+                return val
+            state["failed"] = True
+            counts["first_fails"] += 1
             sig = (state["fn"], key)
             if sig not in seen_fail:
                 seen_fail.add(sig)
@@ -162,9 +198,15 @@ def run_module(m, budget, oracle):
                 except Exception:
                     rv = "<unreprable>"
                 is_never = str(iv) in ("Never", "NoReturn")
+                try:
+                    finding = classifier.classify(state["fn"], node_of[key], val)
+                except Exception:
+                    finding = None
+                    oracle.unknown("classifier-exception")
                 fails.append({"fn": state["fn"], "args": state["args"], "node": key, "kind": k, "runtime": rv,
                               "runtime_type": type(val).__name__, "inferred": short(iv), "never": is_never,
-                              "diagnosed": diagnosed.get(state["fn"], [])})
+                              "diagnosed": diagnosed.get(state["fn"], []), "finding": finding,
+                              "expr": ast.unparse(node_of[key])[:80]})
         return val
 
     def tick():
@@ -187,7 +229,7 @@ def run_module(m, budget, oracle):
             except Exception:
                 res["exec_errors"]["arg-eval"] = res["exec_errors"].get("arg-eval", 0) + 1
                 continue
-            state["fn"], state["args"], state["ticks"] = fn, argsrc, 0
+            state["fn"], state["args"], state["ticks"], state["failed"] = fn, argsrc, 0, False
             ncalls += 1
             try:
                 f(*args)
@@ -216,7 +258,10 @@ def shrink_case(m, budget, oracle):
         r = run_module({"src": src, "calls": {m["fn"]: m["args"]}}, budget, oracle)
         if r.get("crash"):
             return []
-        return [f for f in r["fails"] if not f["diagnosed"]]
+        fs = [f for f in r["fails"] if not f["diagnosed"]]
+        if m.get("new_only"):
+            fs = [f for f in fs if not f.get("finding")]
+        return fs
 
     def still(src):
         try:
